@@ -35,6 +35,9 @@ Calibration
 * dask's 'reflect' is np.pad(mode='symmetric') (edge cell repeated), not np.pad 'reflect'.
 * constant boundaries are cast to the array dtype by dask (full_like(..., dtype=x.dtype)); np.pad does the
   same, so only constants representable in the dtype are generated.
+* with two arrays and align_arrays=True the chunks are first refined to the common breakpoints; "chunk smaller than
+  depth" (and hence the documented ValueError under allow_rechunk=False) is judged on the refined chunks.
+* No alarm on the unchanged tree at seeds 0, 1, 2, 7, 12345.
 """
 from __future__ import annotations
 
@@ -57,15 +60,16 @@ RULE = ("cases = (facet ident|map|map2|swv, shape 1-3 d with lengths 1-9, chunki
 ASSUMPTIONS = ["NumPy 2.x np.pad / sliding_window_view define the expected values", "sync scheduler",
                "the stencil functions are harness code: pure, slicing based, window truncated at the block edge"]
 BUDGET = {"quick": 60, "thorough": 560}
-FLOORS = {"quick": {"evaluations": 1500, "distinct_nontrivial": 900,
-                    "counters": {"ident_compared": 350, "map_compared": 600, "swv_compared": 150,
-                                 "rechunk_needed": 150, "norechunk_valueerror": 20, "asymmetric_depth": 80,
-                                 "lazy_meta_checked": 1200},
-                    "max_skipped_fraction": 0.2},
-          "thorough": {"evaluations": 20000, "distinct_nontrivial": 12000,
-                       "counters": {"ident_compared": 4000, "map_compared": 9000, "swv_compared": 2500,
-                                    "rechunk_needed": 2500, "norechunk_valueerror": 300, "asymmetric_depth": 1200},
-                       "max_skipped_fraction": 0.2}}
+FLOORS = {"quick": {"evaluations": 2800, "distinct_nontrivial": 2200,
+                    "counters": {"ident_compared": 700, "map_compared": 1200, "swv_compared": 650, "rechunk_needed": 1300,
+                                 "norechunk_valueerror": 150, "asymmetric_depth": 150, "trim_false": 200,
+                                 "lazy_meta_checked": 2600, "blocks_checked": 180},
+                    "max_skipped_fraction": 0.1},
+          "thorough": {"evaluations": 45000, "distinct_nontrivial": 28000,
+                       "counters": {"ident_compared": 9000, "map_compared": 17000, "swv_compared": 9000, "rechunk_needed": 18000,
+                                    "norechunk_valueerror": 2300, "asymmetric_depth": 2300, "trim_false": 3000,
+                                    "lazy_meta_checked": 36000},
+                       "max_skipped_fraction": 0.1}}
 EXHAUSTIVE_SPACE = ("all 32 chunkings of shape (6,) x depth {1,2} x boundary {none, periodic, reflect, nearest, constant} "
                     "for trim_internal(overlap(x)) and for map_overlap with the 3-point/5-point full-radius stencil; "
                     "all 16 chunkings of shape (5,) x window 1..5 for sliding_window_view")
@@ -104,7 +108,7 @@ def cases(tier, seed):
             yield {"space": "exhaustive", "kind": "swv", "shape": [5], "chunks": _chunks_desc(ch), "dtype": "int64",
                    "seed": 4, "window": w, "axis": 0, "auto": True}
     # ---- random part ------------------------------------------------------------------------------------
-    n = 2600 if tier == "quick" else 42000
+    n = 5000 if tier == "quick" else 90000
     for _ in range(n):
         kind = rng.choice(("ident", "ident", "map", "map", "map", "map2", "swv", "swv"))
         if kind == "swv":
